@@ -12,6 +12,9 @@ CHECKS = {
 }
 NOT_APPLICABLE = []
 def main():
+    import glob
+    for fn in sorted(glob.glob(os.path.join(here, "manifest.d", "C*.json"))):
+        CHECKS[os.path.basename(fn)[:-5]] = json.load(open(fn))
     checks = []
     for pid in sorted(CHECKS):
         c = CHECKS[pid]
